@@ -93,6 +93,9 @@ int init_peer(struct peer *p, bool is_local_connection, struct eventloop *loop)
 	p->user_name = NULL;
 	p->is_local_connection = is_local_connection;
 	p->loop = loop;
+	p->fetch_groups = 0;
+	p->set_groups = 0;
+	p->call_groups = 0;
 	INIT_LIST_HEAD(&p->next_peer);
 	INIT_LIST_HEAD(&p->element_list);
 	INIT_LIST_HEAD(&p->fetch_list);
